@@ -248,6 +248,22 @@ class Body:
                     out.append((b, s))
         return out
 
+    def natural_loops(self, unwind=False):
+        """list of (header, body set) for every back edge (loops with the same header are merged)"""
+        preds = self.preds(unwind)
+        loops = {}
+        for (t, h) in self.back_edges(unwind):
+            body = {h}
+            st = [t]
+            while st:
+                x = st.pop()
+                if x in body:
+                    continue
+                body.add(x)
+                st.extend(preds[x])
+            loops.setdefault(h, set()).update(body)
+        return sorted(loops.items(), key=lambda kv: len(kv[1]))
+
     def sccs(self, unwind=False):
         """Tarjan; returns list of SCCs (each a set) that contain a cycle."""
         index = {}
